@@ -45,7 +45,7 @@ def run_case(case):
     after_pos = len(hr.doc.log)       # log[:after_pos] rebuilds the post-bundle state
     r = hr.doc.apply([['ApplyUndoActions', s.reply.undo]])
     if not r.ok:
-      out.fail('C03:undo-raised:' + undo_raised_sig(hr.doc, s.uas, r.error), 'undo of %r raised %r' % (s.uas, r.error))
+      out.fail('C03:undo-raised:' + undo_raised_sig(hr.doc, s.uas, r.error, s.reply.undo), 'undo of %r raised %r' % (s.uas, r.error))
       return True
     r2 = hr.doc.apply([['ApplyDocActions', s.reply.stored]])
     if not r2.ok:
